@@ -346,6 +346,22 @@ func cmdCheck(args []string) int {
 		fnKeys = append(fnKeys, shortKey(k))
 	}
 	trusted := trustedBase(cs, done, order)
+	{
+		inl := map[string]bool{}
+		for _, k := range order {
+			for _, f := range done[k].Inlined {
+				inl[shortKey(f)] = true
+			}
+		}
+		if len(inl) > 0 {
+			var names []string
+			for k := range inl {
+				names = append(names, k)
+			}
+			sort.Strings(names)
+			trusted = append(trusted, "not an assumption, for the record: helpers without a contract of their own, verified by executing their bodies in place at each call site: "+strings.Join(names, ", "))
+		}
+	}
 	if cs.NoSafety[*prop] {
 		trusted = append(trusted, "scope: no safe.*/nofatal/nopanic obligations are generated in this property mode (declared 'mode "+*prop+" nosafety'): panic-freedom of the functions involved is not claimed by this check")
 	}
